@@ -7,7 +7,7 @@ Mixes == { <<"prove", "commit", "msm", "codec", "batch", "transcript", "poly", "
            <<"prove", "prove", "prove">>, <<"msm", "commit", "msm", "commit">>, <<"codec", "batch", "transcript", "codec">>, <<"ipa", "prove", "poly">> }
 Ks   == IF Tier = "quick" THEN {2, 8} ELSE {2, 4, 8, 32}
 GMPs == IF Tier = "quick" THEN {1, 4, 16} ELSE {1, 2, 4, 16}
-Full == <<"prove", "commit", "msm", "codec", "batch", "transcript", "poly", "ipa", "serde">>
+Full == <<"prove", "commit", "msm", "codec", "batch", "transcript", "poly", "ipa", "serde", "dupbatch">>
 Base == {[k |-> k, gomaxprocs |-> g, envgmp |-> 0, reps |-> 1, fresh |-> FALSE, calls |-> m] : k \in Ks, g \in GMPs,
            m \in (IF Tier = "quick" THEN {Full, <<"prove", "prove", "prove">>, <<"bigprove", "ipa", "bigprove">>} ELSE Mixes \cup {<<"bigprove", "ipa", "bigprove">>, <<"bigprove", "transcript", "codec">>})}
 (* "any number of goroutines": many more callers than processors (4x and 8x NumCPU), on MSM-bound mixes whose calls fan out into worker goroutines themselves *)
@@ -18,7 +18,7 @@ EnvCases == {[k |-> k, gomaxprocs |-> 0, envgmp |-> g, reps |-> 1, fresh |-> FAL
                                                                        m \in (IF Tier = "quick" THEN {Full} ELSE {Full, <<"msm", "commit", "msm", "prove">>})}
 (* sustained overlap: every goroutine repeats a short list of calls of ONE kind many times, so that two calls of the same kind are inside
    their loops at the same time again and again (pooled or package-level scratch space shows only then) *)
-Kinds == {<<"serde">>, <<"serde", "transcript", "codec">>, <<"bigbatch">>, <<"msm", "commit">>, <<"codec", "batch">>, <<"transcript", "poly">>, <<"prove">>, <<"ipa">>, <<"bigprove">>}
+Kinds == {<<"dupbatch">>, <<"serde">>, <<"serde", "transcript", "codec">>, <<"bigbatch">>, <<"msm", "commit">>, <<"codec", "batch">>, <<"transcript", "poly">>, <<"prove">>, <<"ipa">>, <<"bigprove">>}
 Stress == {[k |-> 16, gomaxprocs |-> g, envgmp |-> 0, reps |-> (IF m \in {<<"prove">>, <<"ipa">>, <<"bigprove">>} THEN (IF Tier = "quick" THEN 6 ELSE 40) ELSE IF Tier = "quick" THEN 200 ELSE 1500), fresh |-> FALSE, calls |-> m] :
              g \in (IF Tier = "quick" THEN {4} ELSE {1, 2, 4, 16}), m \in Kinds}
 (* (dividez is cheap: 120 first-use positions per program make the detection of a first-use race robust on a loaded machine) *)
